@@ -1478,7 +1478,6 @@ class Node:
         [(parent_key, data)]
         ```
         """
-        calc_id = self._tree.calc_data_id
         #: For nodes with multiple occurrences: index of the first one
         #: For typed nodes, we must also check if the `kind` matches, before
         #: simply store a reference.
@@ -1514,7 +1513,8 @@ class Node:
             parent_idx = parent_id_map[parent_id]
 
             node_data = node._data
-            data_id = calc_id(node_data)
+            # Clones are the nodes that share a data_id (see `is_clone()`)
+            data_id = node._data_id
 
             # If node is a 2nd occurrence of a clone, only store the index of the
             # first occurrence and do not call the mapper
